@@ -1802,15 +1802,17 @@ def evaluate__round(self: XPathFunction, context: ta.ContextType = None) \
 
     precision: int = self.get_argument(context, index=1, default=0, cls=int)
     try:
-        if precision < 0:
-            return type(arg)(round(arg, precision))  # type: ignore[call-overload, arg-type]
-
         number = decimal.Decimal(arg)
-        exponent = decimal.Decimal('1') / 10 ** precision
-        if number > 0:
-            return type(arg)(number.quantize(exponent, rounding='ROUND_HALF_UP'))
-        else:
-            return type(arg)(number.quantize(exponent, rounding='ROUND_HALF_DOWN'))
+        if precision >= -number.as_tuple().exponent:  # type: ignore[operator]
+            return arg  # no digit to round off
+        exponent = decimal.Decimal(1).scaleb(-precision)
+        rounding = 'ROUND_HALF_UP' if number > 0 else 'ROUND_HALF_DOWN'
+        with decimal.localcontext() as ctx:
+            ctx.prec = max(ctx.prec, len(number.as_tuple().digits) + 1)
+            result = number.quantize(exponent, rounding=rounding)
+            if precision < 0:
+                result = result.quantize(decimal.Decimal(1))
+        return type(arg)(result)  # type: ignore[call-overload, arg-type]
     except TypeError as err:
         if isinstance(context, XPathSchemaContext):
             return []
